@@ -64,6 +64,33 @@ def relax(spec: typing.Any, v: typing.Any, py: typing.Any, counters: typing.Dict
     return py
 
 
+def _vary_forms(py: typing.Any, seed: int) -> typing.Optional[typing.Tuple[typing.Any]]:
+    """The same value with lists turned into tuples and bytes into bytearray / lists of ints (None when nothing to vary)."""
+    changed = [False]
+    state = [seed or 1]
+
+    def coin() -> bool:
+        state[0] = (state[0] * 1103515245 + 12345) & 0x7FFFFFFF
+        return bool((state[0] >> 8) & 1)
+
+    def go(x: typing.Any) -> typing.Any:
+        if isinstance(x, dict):
+            return {k: go(v) for k, v in x.items()}
+        if isinstance(x, list):
+            ys = [go(v) for v in x]
+            if coin():
+                changed[0] = True
+                return tuple(ys)
+            return ys
+        if isinstance(x, bytes):
+            changed[0] = True
+            return bytearray(x) if coin() else list(x)
+        return x
+
+    out = go(py)
+    return (out,) if changed[0] else None
+
+
 def length_in_bls(b: typing.Any, tree: typing.Any, nbits: int) -> typing.Optional[str]:
     """Is nbits an element of pydsdl's own bit length set `b`?  (exact when the set is small, else bounds + residues)"""
     small = rbls.expansion_tractable(tree, 3000, 50_000, 300_000)
@@ -99,6 +126,13 @@ def check_roundtrip(case: typing.Any, ctx: Ctx) -> Info:
     name = layout.type_string(spec)[:300]
 
     data, _ = guarded(pydsdl.serialize, t, py, with_delimiter_header=with_header, what="serialize")
+    # the documented alternative container types (tuples for arrays, bytearray / list of ints for byte strings) encode alike
+    alt = _vary_forms(py, case.get("form", 0))
+    if alt is not None:
+        data_alt, _ = guarded(pydsdl.serialize, t, alt[0], with_delimiter_header=with_header, what="serialize-alt-forms")
+        require(data_alt == data, "input-container-type-changes-encoding", data.hex(), data_alt.hex() if isinstance(data_alt, bytes) else data_alt,
+                "type %s value %r vs %r" % (layout.type_string(spec)[:200], py, alt[0]))
+        ctx.extra["alt_forms"] = ctx.extra.get("alt_forms", 0) + 1
     require(isinstance(data, bytes), "serialize-returns-bytes", "bytes", type(data).__name__)
     diff = codec.matches(enc, data)
     sig = "encoding"
@@ -169,7 +203,7 @@ def _cases(spec_strategy: st.SearchStrategy) -> st.SearchStrategy:
         spec, flags, header = args
         return gt.values(layout.freeze(spec), out_of_range=flags["oor"], omit=flags["omit"]).map(
             lambda v: {"spec": spec, "value": v, "flags": flags, "header": header}
-        )
+        ).flatmap(lambda c: st.integers(1, 2**20).map(lambda f: dict(c, form=f)))
 
     flags = st.fixed_dictionaries({"oor": st.booleans(), "omit": st.booleans(), "relaxed": st.booleans()})
     return st.tuples(spec_strategy, flags, st.booleans()).flatmap(with_value)
@@ -188,6 +222,24 @@ def _boundary_specs() -> st.SearchStrategy:
     return st.tuples(arr, st.sampled_from([["bool"], ["uint", 8, "sat"], ["uint", 13, "sat"]]), st.booleans()).map(
         lambda t: ["struct", ([["p", t[1]]] if t[2] else []) + [["x", t[0]], ["y", ["uint", 16, "sat"]]]]
     )
+
+
+def _big_union_cases() -> st.SearchStrategy:
+    """Unions whose tag value reaches the top half of 8 bits and beyond (tag width 8 / 16)."""
+
+    def build(t: typing.Tuple[int, int, typing.Any, bool]) -> typing.Any:
+        n, pick, payload, wrap = t
+        idx = [0, 127, 128, n // 2, n - 2, n - 1][pick % 6] % n
+        variants = [["v%d" % i, ["uint", (i % 13) + 1, "sat"]] for i in range(n)]
+        variants[idx] = ["v%d" % idx, ["var", ["uint", 9, "trunc"], 3]]
+        spec: typing.Any = ["union", variants]
+        value: typing.Any = {"v%d" % idx: payload}
+        if wrap:
+            spec = ["struct", [["lead", ["uint", 3, "sat"]], ["u", spec], ["tail", ["uint", 8, "sat"]]]]
+            value = {"lead": 5, "u": value, "tail": 200}
+        return {"spec": spec, "value": value, "flags": {"oor": False, "omit": False, "relaxed": False}, "header": False, "form": 3}
+
+    return st.tuples(st.sampled_from([129, 200, 255, 256, 257, 300]), st.integers(0, 5), st.lists(st.integers(0, 511), max_size=3), st.booleans()).map(build)
 
 
 def _boundary_cases() -> st.SearchStrategy:
@@ -224,4 +276,5 @@ def parts(ctx: Ctx) -> typing.List[Part]:
     return [
         Part("roundtrip", _cases(gt.composites(gt.small_capacity(), max_leaves=8)), check_roundtrip, weight=10),
         Part("prefix-boundary", _boundary_cases(), check_roundtrip, weight=1, cost=40.0, min_examples=6),
+        Part("big-union", _big_union_cases(), check_roundtrip, weight=1, cost=30.0, min_examples=6),
     ]
